@@ -21,7 +21,14 @@ def inversion_native(vc):
         A[:, -1] = A[:, 0]
     y = rng.normal(size=m) * 2
     y_err = 10 ** rng.uniform(-1.5, 0, size=m)
-    K = [SquaredExponential, RationalQuadratic][seed % 2]()
+    from inference.gp import ChangePoint
+    # the prior covariance: plain kernels and change-point combinations of two and of three kernels (in a change point of
+    # three or more kernels every weight depends on two neighbouring transitions)
+    mkK = [SquaredExponential, RationalQuadratic,
+           lambda: ChangePoint(kernels=[SquaredExponential(), RationalQuadratic(), SquaredExponential()], axis=0),
+           SquaredExponential, RationalQuadratic,
+           lambda: ChangePoint(kernels=[SquaredExponential(), SquaredExponential()], axis=0)][seed % 6]
+    K = mkK()
     M = [ConstantMean, LinearMean, QuadraticMean][seed % 3]()
     inv = GpLinearInverter(y=y, y_err=y_err, model_matrix=A, parameter_spatial_positions=pos,
                            prior_covariance_function=K, prior_mean_function=M)
@@ -62,7 +69,7 @@ def inversion_native(vc):
     m_a, c_a = inv.calculate_posterior(work)
     e_a = inv.marginal_likelihood(work)
     inv2 = GpLinearInverter(y=y, y_err=y_err, model_matrix=A, parameter_spatial_positions=pos,
-                            prior_covariance_function=type(K)(), prior_mean_function=type(M)())
+                            prior_covariance_function=mkK(), prior_mean_function=type(M)())
     m_b, c_b = inv2.calculate_posterior(fresh)
     e_b = inv2.marginal_likelihood(fresh)
     vc.ensures("no_dependence_on_earlier_calls_with_the_same_array",
@@ -281,3 +288,13 @@ def constructor(vc):
     vc.ensures("kernel_and_mean_see_the_parameter_positions", cov.got is pos and mean.got is pos)
     vc.ensures("model_and_data_stored", vc.attr(obj, "A") is A and vc.attr(obj, "y") is y)
 import contracts.matrix_laws  # noqa: F401  (numerical self-test of the matrix layer's axioms)
+
+
+# The evidence gradient above is proved MODULARLY over the prior covariance / mean objects: it takes
+# covariance_and_gradients() / mean_and_gradients() to return dK/dtheta_q and dm/dtheta_q.  Those callee contracts (written
+# for C10) are therefore obligations of this property as well: a kernel whose reported derivative is wrong makes the
+# reported evidence gradient wrong although no line of GpLinearInverter has changed.
+from contracts import c10_covariance as _c10
+for _n in ("squared_exponential", "rational_quadratic", "white_noise", "heteroscedastic_noise", "composite",
+           "change_point_logistic", "change_point", "constant_mean", "linear_mean", "quadratic_mean"):
+    contract("C17", "prior_" + _n, native=False, replay_with="inversion_native")(getattr(_c10, _n))
